@@ -38,10 +38,11 @@ ASSUMPTIONS = ["entries may disappear through the documented paths only: destroy
                "inactivity/age sweeps; the attack window is kept shorter than max_time_inactive and circuits are kept busy",
                "hidden-service circuits not covered"]
 REACH = ["shared_relay_pairs", "forged_create_live_exit_before_expiry", "forged_create_live_exit_after_expiry",
-         "forged_create_live_relay", "forged_destroy_non_neighbour", "replayed_destroy", "cross_circuit_body",
+         "forged_create_live_relay", "forged_destroy_non_neighbour", "forged_destroy_spoofed_source", "replayed_destroy", "cross_circuit_body",
          "garbage_on_live_id", "unknown_id_cell", "legit_destroy_removed_only_own", "data_delivered"]
 
-ATTACKS = ["unknown_id", "garbage_live", "cross_body", "create_live", "create_live", "destroy_own_sig", "destroy_replay"]
+ATTACKS = ["unknown_id", "garbage_live", "cross_body", "create_live", "create_live", "destroy_own_sig", "destroy_replay",
+           "destroy_spoofed_src"]
 
 
 def cases(tier: str, base_seed: int):  # noqa: ANN201
@@ -200,6 +201,15 @@ def execute(case: dict) -> dict:  # noqa: C901, PLR0915
                 world.probe("forged_destroy_non_neighbour")
                 c.nontrivial(f"destroy_own/{tname}/{after_expiry}")
                 adv.call(adv.ov.send_destroy, target.address, cid, 1 + int(pick * 3))
+            elif kind == "destroy_spoofed_src":
+                # signed by the adversary's own key, but arriving from the address of the entry's real neighbour
+                entry = before[(node_name, tname, cid)][0]
+                hop = getattr(entry, "hop", None)
+                if hop is not None and hop.peer is not None:
+                    world.probe("forged_destroy_spoofed_source")
+                    c.nontrivial(f"destroy_spoofed/{tname}/{after_expiry}")
+                    pkt_d = adv.call(adv.ov.ezr_pack, DestroyPayload.msg_id, DestroyPayload(cid, 1 + int(pick * 3)))
+                    net.inject(tuple(hop.address), target.address, pkt_d, label="forged_destroy")
             elif kind == "destroy_replay":
                 if destroys_seen:
                     world.probe("replayed_destroy")
